@@ -26,7 +26,7 @@ def VecV.ofArrs (xs : List ArrV) (name : String := "") : Res VecV :=
   | x :: rest =>
     if xs.length > 3 then .error .typeErr
     else if rest.any (fun c => c.shape != x.shape) then .error .valueErr
-    else if rest.any (fun c => c.unit != x.unit) then .error .valueErr
+    else if rest.any (fun c => !c.unit.same x.unit) then .error .valueErr
     else .ok (VecV.rename { comps := xs, name := name } name)
 
 def VecV.nvec (v : VecV) : Nat := v.comps.length
@@ -44,12 +44,12 @@ def mapM2 {α β γ : Type} (f : α → β → Res γ) : List α → List β →
   | _, _ => pure []
 
 /-- `vector._binary_op(op, lhs, rhs)` -/
-def VecV.binaryOp (op : BinOp) (lhs : VecV) (rhs : VRhs) : Res VecV := do
+def VecV.binaryOp (T : Tables) (op : BinOp) (lhs : VecV) (rhs : VRhs) : Res VecV := do
   let rcomps : List ArrV := match rhs with
     | .vec w => w.comps
     | .arr a => lhs.comps.map (fun _ => a)
   if lhs.comps.length != rcomps.length then .error .valueErr else
-  let cs ← mapM2 (ArrV.binaryOp op) lhs.comps rcomps
+  let cs ← mapM2 (ArrV.binaryOp T op) lhs.comps rcomps
   VecV.ofArrs cs
 
 def VecV.mapComps (f : ArrV → Res ArrV) (v : VecV) : Res VecV := do
@@ -76,8 +76,8 @@ def VecV.normSq (v : VecV) : List Rat :=
 /-- `Vector.dot(other)`: Σ (c1 * c2).values, unit = self.unit * other.unit.
     `(c1 * c2)` is the *non-strict* Array product, which converts c2 to c1's unit when
     it can. -/
-def VecV.dotAsCoded (v w : VecV) : Res ArrV := do
-  let prods ← mapM2 (ArrV.binaryOp .mul) v.comps w.comps
+def VecV.dotAsCoded (T : Tables) (v w : VecV) : Res ArrV := do
+  let prods ← mapM2 (ArrV.binaryOp T .mul) v.comps w.comps
   let n := shapeSize v.shape
   let zero : List Rat := List.replicate n 0
   let data := prods.foldl (fun acc p =>
@@ -85,8 +85,8 @@ def VecV.dotAsCoded (v w : VecV) : Res ArrV := do
   pure { shape := v.shape, dtype := .f8, data := data, unit := v.unit.mul w.unit, name := "" }
 
 /-- repaired `dot`: the unit is the one the component products actually carry -/
-def VecV.dot (v w : VecV) : Res ArrV := do
-  let prods ← mapM2 (ArrV.binaryOp .mul) v.comps w.comps
+def VecV.dot (T : Tables) (v w : VecV) : Res ArrV := do
+  let prods ← mapM2 (ArrV.binaryOp T .mul) v.comps w.comps
   let n := shapeSize v.shape
   let zero : List Rat := List.replicate n 0
   let data := prods.foldl (fun acc p =>
@@ -97,11 +97,11 @@ def VecV.dot (v w : VecV) : Res ArrV := do
   pure { shape := v.shape, dtype := .f8, data := data, unit := unit, name := "" }
 
 /-- `Vector.cross(other)` for three-component vectors -/
-def VecV.cross (v w : VecV) : Res VecV :=
+def VecV.cross (T : Tables) (v w : VecV) : Res VecV :=
   match v.comps, w.comps with
   | [ax, ay, az], [bx, b_y, bz] => do
-    let m (p q : ArrV) := ArrV.binaryOp .mul p q
-    let s (p q : ArrV) := ArrV.binaryOp .sub p q
+    let m (p q : ArrV) := ArrV.binaryOp T .mul p q
+    let s (p q : ArrV) := ArrV.binaryOp T .sub p q
     let x ← s (← m ay bz) (← m az b_y)
     let y ← s (← m az bx) (← m ax bz)
     let z ← s (← m ax b_y) (← m ay bx)
